@@ -506,6 +506,7 @@ func main() {
 	seed := flag.Uint64("seed", 1, "seed")
 	n := flag.Int("n", 5000, "cases per stream")
 	out := flag.String("out", ".", "output directory")
+	only := flag.String("only", "", "emit only this stream (KM)")
 	flag.Parse()
 	r := rng.New(*seed)
 	fo, _ := os.Create(*out + "/codec.ops")
@@ -523,6 +524,46 @@ func main() {
 		}
 		stats[kind+"/"+rk]++
 		id++
+	}
+	// ---- 0. the missed-block key of (address, window index): every index of the int64 range has its own key
+	km := func() {
+		addr := sdk.Address(r.Bytes(20))
+		var i int64
+		switch r.Intn(6) {
+		case 0:
+			i = int64(r.Intn(300))
+		case 1:
+			i = int64(1)<<uint(r.Intn(63)) + int64(r.Intn(3)) - 1
+		case 2:
+			i = int64(r.Intn(1 << 20))
+		case 3:
+			i = int64(r.U64() >> 1)
+		case 4:
+			i = int64(65536*(1+r.Intn(5)) + r.Intn(4))
+		default:
+			i = int64(r.U64()>>1) >> uint(r.Intn(63))
+		}
+		emit(fmt.Sprintf("KM %s %d", hx(addr), i), guard(func() string {
+			k := posTypes.GetValMissedBlockKey(addr, i)
+			if !bytes.HasPrefix(k, posTypes.GetValMissedBlockPrefixKey(addr)) {
+				return "key-outside-the-validator-prefix"
+			}
+			for _, j := range []int64{i & 0xffff, i & 0xffffffff, i & 0xffffffffffff, i >> 8, i >> 16, i + 1} {
+				if j != i && j >= 0 && bytes.Equal(posTypes.GetValMissedBlockKey(addr, j), k) {
+					return fmt.Sprintf("COLLISION position %d has the same key", j)
+				}
+			}
+			return hx(k[1:])
+		}))
+	}
+	if *only == "KM" {
+		for i := 0; i < *n; i++ {
+			km()
+		}
+		return
+	}
+	for i := 0; i < *n/16; i++ {
+		km()
 	}
 	// ---- 1. round trips
 	for i := 0; i < *n/4; i++ {
@@ -821,6 +862,16 @@ func main() {
 			if r.Bool() {
 				d.Int.Neg(d.Int)
 			}
+		}
+		if r.Chance(1, 6) { // magnitudes below one, of either sign and every number of leading fraction zeros
+			k := r.Intn(18)
+			m := new(big.Int).Exp(big.NewInt(10), big.NewInt(int64(k)), nil)
+			m.Mul(m, big.NewInt(int64(1+r.Intn(9))))
+			m.Add(m, new(big.Int).Rem(r.Bits(60), new(big.Int).Exp(big.NewInt(10), big.NewInt(int64(k)), nil)))
+			if r.Bool() {
+				m.Neg(m)
+			}
+			d = sdk.Dec{Int: m}
 		}
 		emit("DS "+d.Int.String(), guard(func() string { return hx([]byte(d.String())) }))
 		str := d.String()
